@@ -30,7 +30,8 @@ def env_EventBus():
     return env.EventBus
 
 
-EXC = {'ValueError': ValueError, 'KeyError': KeyError, 'TimeoutError': TimeoutError, 'Custom': type('CustomError', (Exception,), {})}
+EXC = {'ValueError': ValueError, 'KeyError': KeyError, 'TimeoutError': TimeoutError, 'Custom': type('CustomError', (Exception,), {}),
+       'CancelledError': asyncio.CancelledError}    # (a handler that lets a cancellation of something it awaited escape)
 
 
 def build(ctx):
